@@ -122,5 +122,31 @@ CHECKS["C09"] = {
             "utils.restore (deepcopy of __dict__) is an exact snapshot. Two defects found here were repaired by fix: commits.",
     "technique": T,
 }
+CHECKS["C10"] = {
+    "level": "proof",
+    "text": "Kernel-checked per model (Learner1D, SequenceLearner, AverageLearner): re-telling a known point is a no-op (also with a "
+            "different value for the first-value learners), no pending point has data, no point is stored twice, the abscissa lists "
+            "are exactly the told points, remove_unfinished empties the pending set and equalises both losses; further bookkeeping "
+            "theorems (data = first/last told value for every run, committed asks pending until told) in Lemmas/*Book.lean as "
+            "listed in the evidence. LearnerND / IntegratorLearner / AverageLearner1D have no Lean model of this bookkeeping: "
+            "for them the deciding part is the shadow oracle (listed as partial). Search: shadow bookkeeping over 20 learner kinds.",
+    "design_ref": "DESIGN.md section 6 C10",
+    "note": "Trusted: Lean kernel, standard axioms; models tied to the code by the lock-step checks C01/C02/C15/C16/C17/C18. Three "
+            "defects found here were repaired by fix: commits; one is a recorded finding (AverageLearner1D re-issues evaluated seeds).",
+    "technique": T,
+}
+CHECKS["C13"] = {
+    "level": "proof",
+    "text": "Kernel-checked data round trips _set_data(_get_data()) per model (DataSaver incl. extra_data over any child, "
+            "AverageLearner moments, SequenceLearner, Learner1D as listed in the evidence). Restore-bisimilarity beyond the data "
+            "(same loss, same next suggestions) is NOT proved in Lean and LearnerND / IntegratorLearner / AverageLearner1D have no "
+            "model of their persistence: there the deciding part is the search (listed as partial). Search: real save/load (gzip "
+            "on/off), pickle, cloudpickle, copy_from for 19 learner kinds after histories ending with no pending points; data exactly, "
+            "loss and next ask(1)/ask(3) exactly (pickles) or to 1e-9 (file/copy).",
+    "design_ref": "DESIGN.md section 6 C13",
+    "note": "Trusted: Lean kernel, standard axioms; cloudpickle/gzip byte formats; models tied to the code by the lock-step checks. "
+            "One recorded finding (Learner1D restored while a domain end point has no value normalises x by the data hull).",
+    "technique": T,
+}
 _PENDING = "machinery for this property is not built yet in this commit (work in progress; see DESIGN.md section 9)"
 NOT_APPLICABLE = {f"C{i:02d}": _PENDING for i in range(1, 21) if f"C{i:02d}" not in CHECKS}
